@@ -201,7 +201,19 @@ func HarnessC02Chain() {
 	data := map[string]any{"a": a, "b": b, "zero": 0, "one": 1}
 	var src, want string
 	fails := false
-	switch vChoice("shape", 6) {
+	switch vChoice("shape", 10) {
+	case 6: // a branch body that starts with a letter the longer keyword starts with
+		src = "@if(a)valid@elseinvalid@end"
+		want = map[bool]string{true: "valid", false: "invalid"}[a]
+	case 7: // a condition behind the chosen branch is not evaluated, even when it divides by a literal zero
+		src = "@if(a)x@elseif(1 / 0)y@else z@end"
+		want, fails = "x", !a
+	case 8:
+		src = "@if(a)x@elseif(b)y@elseif(1 % 0)w@end"
+		want, fails = map[bool]string{true: "x", false: "y"}[a], !a && !b
+	case 9:
+		src = "{{ a ? \"A\" : 1 / 0 }}"
+		want, fails = "A", !a
 	case 0:
 		src = "{{ a ? \"A\" : b ? \"B\" : \"C\" }}"
 		want = map[bool]string{true: "A", false: map[bool]string{true: "B", false: "C"}[b]}[a]
